@@ -43,6 +43,8 @@ var memberKinds = []mkind{
 	{"nullable-string", `{"oneOf":[{"type":"string"},{"type":"null"}]}`, `{"type":"string","nullable":true}`, `string | null`},
 	{"nullable-ref", `{"oneOf":[{"$ref":"#/definitions/S"},{"type":"null"}]}`, `{"allOf":[{"$ref":"#/components/schemas/S"}],"nullable":true}`, `S | null`},
 	{"constant", `{"type":"string","const":"s"}`, `{"type":"string","enum":["s"]}`, `"s"`},
+	// a constant member of an enum: only CUE has it
+	{"constant-ref", ``, ``, `E & "a"`},
 }
 
 const (
@@ -57,6 +59,9 @@ const (
 
 // with adds a "default" member to a JSON object text.
 func withDefault(obj, def string) string {
+	if obj == "" {
+		return ""
+	}
 	if obj == "{}" {
 		return `{"default":` + def + `}`
 	}
@@ -67,9 +72,15 @@ func withDefault(obj, def string) string {
 func structDefaultShapes() []Shape {
 	var out []Shape
 	js := func(name, defs string) {
+		if strings.Contains(defs, `"m":,`) || strings.Contains(defs, `"m":}`) || strings.Contains(defs, `"f":}`) {
+			return // the format can not express the member kind
+		}
 		out = append(out, Shape{Format: "jsonschema", Name: name, Doc: jsDoc(defs + "," + sdefJSSupport)})
 	}
 	oa := func(name, schemas string) {
+		if strings.Contains(schemas, `"m":,`) || strings.Contains(schemas, `"m":}`) || strings.Contains(schemas, `"f":}`) {
+			return
+		}
 		out = append(out, Shape{Format: "openapi", Name: name, Doc: oaDoc(schemas + "," + sdefOASupport)})
 	}
 	cue := func(name, body string) {
@@ -98,6 +109,19 @@ func structDefaultShapes() []Shape {
 				oa("sdef/ref/"+id, `"Root":{"type":"object","properties":{"inner":{"allOf":[{"$ref":"#/components/schemas/Inner"}],"default":`+def+`}}},"Inner":{"type":"object","properties":{"m":`+m.OA+`}}`)
 				cue("sdef/ref/"+id, "Root: {inner: Inner | *"+def+"}\nInner: {m?: "+m.CUE+"}")
 				cue("sdef/ref-required-member/"+id, "Root: {inner: Inner | *"+def+"}\nInner: {first: string | *\"f\", m: "+m.CUE+"}")
+				// the same with the member between two others (its position among
+				// the fields of the struct: first, last and middle are not the same
+				// for code that filters or reorders fields)
+				if key == "m" {
+					js("sdef/inline-middle/"+id, `"Root":{"type":"object","properties":{"inner":{"type":"object","properties":{"a":{"type":"string"},"m":`+m.JS+`,"z":{"type":"integer"}},"default":`+def+`}}}`)
+					js("sdef/named-middle/"+id, `"Root":{"type":"object","properties":{"inner":{"$ref":"#/definitions/Inner"}}},"Inner":{"type":"object","properties":{"a":{"type":"string"},"m":`+m.JS+`,"z":{"type":"integer"}},"default":`+def+`}`)
+					oa("sdef/ref-middle/"+id, `"Root":{"type":"object","properties":{"inner":{"allOf":[{"$ref":"#/components/schemas/Inner"}],"default":`+def+`}}},"Inner":{"type":"object","properties":{"a":{"type":"string"},"m":`+m.OA+`,"z":{"type":"integer"}}}`)
+					cue("sdef/inline-middle/"+id, "Root: {inner: {a?: string, m?: "+m.CUE+", z?: int64} | *"+def+"}")
+					cue("sdef/ref-middle/"+id, "Root: {inner: Inner | *"+def+"}\nInner: {a?: string, m?: "+m.CUE+", z?: int64}")
+					cue("sdef/ref-first/"+id, "Root: {inner: Inner | *"+def+"}\nInner: {m?: "+m.CUE+", z?: int64}")
+					cue("sdef/ref-middle-required/"+id, "Root: {inner: Inner | *{a: \"s\", m: "+v.JSON+", z: 3}}\nInner: {a: string, m: "+m.CUE+", z: int64}")
+					cue("sdef/ref-first-required/"+id, "Root: {inner: Inner | *{m: "+v.JSON+", z: 3}}\nInner: {m: "+m.CUE+", z: int64}")
+				}
 			}
 			// 4. the same alphabet as default of a field of that kind
 			id := m.Name + "/" + v.Name
@@ -125,12 +149,21 @@ func structDefaultConfigCases(plainPipe string) []configCase {
 	for _, m := range memberKinds {
 		for _, v := range defaultAlphabet {
 			for _, placement := range []string{"inline", "ref"} {
-				inner := `{"type":"object","properties":{"m":` + m.JS + `,"n":{"type":"string"}}}`
+				inner := `{"type":"object","properties":{"a":{"type":"string"},"m":` + m.JS + `,"n":{"type":"string"}}}`
 				defs := `"Root":{"type":"object","properties":{"inner":` + inner + `}}`
 				if placement == "ref" {
 					defs = `"Root":{"type":"object","properties":{"inner":{"$ref":"#/definitions/Inner"}}},"Inner":` + inner
 				}
 				schema := jsDoc(defs + "," + sdefJSSupport)
+				cueSchema := ""
+				if m.JS == "" {
+					cueInner := "{a?: string, m?: " + m.CUE + ", n?: string}"
+					cueSchema = cueDoc("Root: {inner?: " + cueInner + "}\n" + sdefCUESupport)
+					if placement == "ref" {
+						cueSchema = cueDoc("Root: {inner?: Inner}\nInner: " + cueInner + "\n" + sdefCUESupport)
+					}
+					schema = cueSchema
+				}
 				for _, key := range []string{"m", "zz"} {
 					if key == "zz" && m.Name != "string" {
 						continue
@@ -138,6 +171,11 @@ func structDefaultConfigCases(plainPipe string) []configCase {
 					passes := fmt.Sprintf("passes: [{fields_set_default: {defaults: {p.Root.inner: {%s: %s}}}}]\n", key, v.JSON)
 					files := configFiles(plainPipe, passes, noVeneers)
 					files["p.json"] = schema
+					if cueSchema != "" {
+						delete(files, "p.json")
+						files["p/schema.cue"] = cueSchema
+						files["pipeline.yaml"] = strings.Replace(plainPipe, plainInput, "  - cue: {entrypoint: '%DIR%/p'}\n", 1)
+					}
 					name := m.Name
 					if key == "zz" {
 						name = "no-such-member"
